@@ -124,8 +124,10 @@ CHECKS["C09"] = {
             "normalisation, predefined entities, numeric references, production Char) reads back from the text uigen writes is the source string (C09_roundtrip, "
             "after the repair of F6); quick-xml's own escape round-trips exactly the strings without CR (C09_escape_roundtrip, refuted with CR = finding F6); every "
             "written character is an XML Char iff every source character is, and a string with any other character cannot be carried at all "
-            "(C09_non_xml_char_ill_formed) -- such strings are now diagnosed (repair of F17). Tie and validation: the bytes of <string> elements in real .ui files "
-            "vs the model over strings of all character classes; every .ui of generated documents, of the repository's example/test documents and of their mutants "
+            "(C09_non_xml_char_ill_formed) -- such strings are now diagnosed (repair of F17); the same round trip for ATTRIBUTE values (icon theme names) "
+            "under attribute-value normalisation (C09_attribute_roundtrip, after the repair of F23; refuted for quick-xml's own attribute escaping). Tie and "
+            "validation: the bytes of <string> elements and of theme attributes in real .ui files vs the model over strings of all character classes, each string "
+            "bound to the 12 places a source string can reach; every .ui of generated documents, of the repository's example/test documents and of their mutants "
             "is parsed with expat and checked against the Designer form grammar table (root/ class/ one root widget, nesting, exactly one value element per property, "
             "no duplicate property names), and strings are read back and compared with the source.",
     "technique": "Coq proof of the escape/read-back round trip for all XML-Char strings + byte-level differential check of written text + expat/grammar validation of real outputs",
@@ -271,7 +273,10 @@ CHECKS["C01"] = {
             "truncating / and %, lazy && || ?:, if/else, switch with fall-through / break / default anywhere, let/const scoping, return; integer literal sub-expressions "
             "in Z) gives to the source program in the same world, whenever that value is defined. Proofs (closed under the global context) fix the reference semantics "
             "on the points the statement names: int arithmetic is exact and in range or undefined, uint wraps, division by zero / INT_MIN % -1 / bad shifts / null "
-            "dereference are undefined, && || ?: are lazy, translation-time folding agrees with the run-time meaning on literals. NOT proved: the general statement "
+            "dereference are undefined, && || ?: are lazy, translation-time folding agrees with the run-time meaning on literals (+ - * / % & | ^); let/const scoping -- "
+            "after any statement that is not a declaration exactly the variables visible before are visible again (C01_partial_semantics_scope), and in the model of "
+            "the translator (typedexpr.rs walk_stmt) the name table after such a statement is the one before it (C01_partial_translator_scope; finding F21 was the "
+            "code violating it for switch clauses); evaluating an expression changes no property of any object (C01_partial_evaluation_changes_no_property). NOT proved: the general statement "
             "(compile correctness for all programs and worlds) -- an open obligation; every theorem of this property is named C01_partial_*.",
     "technique": "executable Coq reference semantics with partial proofs + differential execution of the real emitted C++ (g++, ASan/UBSan) against it over generated programs and worlds",
     "design_ref": "5 C01",
@@ -287,7 +292,9 @@ CHECKS["C13"] = {
             "declared parameters bound to the leading signal arguments, whenever that run is defined. Also checked on the header: exactly one connection per handler, "
             "to that signal of the declaring object, the default-argument variants collapsing to the overload carrying the most arguments; and the rejections "
             "(overloaded signal, non-signal, too many / ill-typed parameters, unknown signal). Proofs (closed under the global context) fix the reference semantics: "
-            "effects are recorded in source order and nothing else, parameters are the leading arguments, an early return stops the handler. NOT proved: the general "
+            "effects are recorded in source order and nothing else (for EVERY statement the trace only grows, and in a block the effects of the first statement lie "
+            "below those of the following ones: C13_partial_trace_only_grows, C13_partial_block_effects_in_source_order), the k-th declared parameter is the k-th "
+            "argument of the emission for any number of parameters and arguments (C13_partial_parameters_general), an early return stops the handler. NOT proved: the general "
             "statement for all handlers -- an open obligation; the theorems are named C13_partial_*.",
     "technique": "executable Coq reference semantics with partial proofs + execution of the real emitted C++ (signal emission against the API model) compared with it + header scan for the wiring",
     "design_ref": "5 C13",
@@ -303,7 +310,8 @@ CHECKS["C02"] = {
             "(C02_stale_without_coverage_refuted). COVERAGE is proved at the level of the IR for the model of tir/propdep.rs (model/Passes.v, tied to the implementation "
             "token by token by the K legs of C05/C06/C07): after the dependency analysis, in every block every read of a non-constant property through a pointer is a "
             "static dependency or is immediately preceded by the observation of that local with that notify signal (C02_dependency_complete_ir); the same coverage "
-            "predicate runs as a checker on the implementation's own analysed IR of generated programs. That the real generated C++ has frame and coverage is NOT proved: the property itself is decided on the real output "
+            "predicate runs as a checker on the implementation's own analysed IR of generated programs, and that checker is proved to decide the predicate "
+            "(signals up to class, name and argument types: C02_ir_checker_sound). That the real generated C++ has frame and coverage is NOT proved: the property itself is decided on the real output "
             "per binding and history -- the support header is compiled against the API model (setters emit notify on change, connect/disconnect dispatch), setup() is "
             "run, a random history of changes (boundary values, re-pointing incl. cycles, nulling, no-op changes) is applied through the setters and after setup and "
             "after every step each target is compared with model/Sem.v's value of the source expression in the current world. Reads of non-constant properties without "
